@@ -517,6 +517,9 @@ class Lexer:
                 self.ignore()
                 sub_expression: list[TokenT] = []
                 sub_expression_start = self.start
+                # Two dots in here don't start a range in the enclosing expression.
+                in_range = self.in_range
+                self.in_range = False
 
                 while True:
                     self.ignore_whitespace()
@@ -538,6 +541,7 @@ class Lexer:
                             self.next()
                             self.ignore()
                             self.start = self.pos
+                            self.in_range = in_range
                             break
 
                         self.error(
@@ -825,6 +829,9 @@ class Lexer:
             kind = match.lastgroup
             value = match.group()
             self.pos += len(value)
+            # A range is written inside one markup. Don't look for the end of one
+            # that was started, or only looked like one, in earlier markup.
+            self.in_range = False
 
             if kind == "CONTENT":
                 self.markup.append(
